@@ -92,7 +92,9 @@ class Local(FileSystem):
         dirname = os.path.dirname(file_path)
         if dirname and not os.path.exists(dirname):
             log.debug('creating local directory %s', dirname)
-            os.makedirs(dirname)
+            # exist_ok: tasks writing part files concurrently (thread pool)
+            # may all find the directory missing
+            os.makedirs(dirname, exist_ok=True)
 
         log.debug('writing file %s', file_path)
         with io.open(file_path, 'wb') as f:
